@@ -600,6 +600,21 @@ impl<D: DependencyProvider, RT: AsyncRuntime> Solver<D, RT> {
             ))
         } else {
             self.state.decision_tracker.undo_until(starting_level);
+
+            // While trying this soft requirement an exclusion may have been discovered
+            // for a solvable that an earlier soft requirement installed directly (such
+            // a solvable is not subject to the clauses of its package until somebody
+            // asks for the package). The earlier solvable stays installed, so the
+            // assertion can never hold; if it were kept, every later propagation would
+            // run into it and every later soft requirement would be rejected.
+            let SolverState {
+                negative_assertions,
+                decision_tracker,
+                ..
+            } = &mut self.state;
+            negative_assertions
+                .retain(|&(variable, _)| decision_tracker.assigned_value(variable) != Some(true));
+
             self.state
                 .decision_tracker
                 .try_add_decision(
